@@ -1,6 +1,9 @@
 #!/venv/bin/python
 """Apply each seeded change to /repo, run the listed checks, undo it straight afterwards; record which checks catch it.
-usage: tools/seedtest.py [seed-id ...] [--checks C03,C16] [--tier quick]"""
+usage: tools/seedtest.py [seed-id ...] [--checks C03,C16] [--tier quick] [--scratch=1]
+With --scratch=1 the change is applied to a scratch worktree of /repo's HEAD under /tmp/seedwt/<id> (removed afterwards) and the checks run
+with VERIF_REPO pointing at it, so /repo itself is not touched (used while background runs read /repo; several seeds of DIFFERENT
+properties can then be tested at the same time)."""
 import os, sys, json, subprocess, glob, time
 HERE = os.path.dirname(os.path.dirname(os.path.abspath(__file__)))
 REPO = '/repo'
@@ -15,24 +18,34 @@ def main():
     seeds = args or sorted(os.path.basename(d) for d in glob.glob(os.path.join(HERE, 'seeded', '*')) if os.path.isdir(d))
     tier = opts.get('tier', 'quick')
     results = {}
+    scratch = opts.get('scratch') == '1'
     assert sh('git -C %s status --porcelain' % REPO).stdout.strip() == '', '/repo is not clean'
     for sid in seeds:
         d = os.path.join(HERE, 'seeded', sid)
         meta = json.load(open(os.path.join(d, 'meta.json')))
         checks = opts['checks'].split(',') if 'checks' in opts else meta.get('checks_to_run', [meta['property']])
-        r = sh('git -C %s apply %s' % (REPO, os.path.join(d, 'patch.diff')))
+        tree = REPO
+        if scratch:
+            tree = '/tmp/seedwt/%s' % sid
+            sh('git -C %s worktree remove --force %s' % (REPO, tree)); os.makedirs('/tmp/seedwt', exist_ok=True)
+            r = sh('git -C %s worktree add --detach %s HEAD' % (REPO, tree))
+            if r.returncode != 0: print(sid, 'NO WORKTREE', r.stderr[:200]); continue
+        r = sh('git -C %s apply %s' % (tree, os.path.join(d, 'patch.diff')))
         if r.returncode != 0: print(sid, 'PATCH DOES NOT APPLY', r.stderr[:200]); continue
         try:
             res = {}
             for c in checks:
                 t = time.time()
-                p = sh('cd %s && ./check %s --tier %s' % (HERE, c, tier), timeout=3600)
+                p = sh('cd %s && %s./check %s --tier %s' % (HERE, 'VERIF_REPO=%s ' % tree if scratch else '', c, tier), timeout=3600)
                 lines = [l for l in p.stdout.split('\n') if l.startswith('VIOLATION')]
                 res[c] = dict(rc=p.returncode, violations=lines[:3], seconds=round(time.time() - t))
                 print(sid, c, 'rc=%d' % p.returncode, lines[:1]); sys.stdout.flush()
             results[sid] = res
         finally:
-            sh('git -C %s checkout -- . && git -C %s clean -fdq' % (REPO, REPO))
+            if scratch: sh('git -C %s worktree remove --force %s' % (REPO, tree))
+            else: sh('git -C %s checkout -- . && git -C %s clean -fdq' % (REPO, REPO))
+    import fcntl
+    lock = open(os.path.join(HERE, 'build', 'seedresults.lock'), 'w'); fcntl.flock(lock, fcntl.LOCK_EX)
     out = os.path.join(HERE, 'seeded', 'results-%s.json' % tier)
     old = json.load(open(out)) if os.path.exists(out) else {}
     old.update(results); json.dump(old, open(out, 'w'), indent=1)
